@@ -10,6 +10,7 @@ git -C /repo worktree add -q --detach "$WT" HEAD || exit 2
 cd /verif
 VERIF_REPO="$WT" ./check $PROP $TIER; rc=$?
 git -C /repo worktree remove --force "$WT"
-rm -rf /verif/out/mod-* /verif/out/bin/*-????????.test /verif/out/bin/*-????????.race.test /verif/out/run-* 2>/dev/null
+TAG=$(printf %s "$WT" | sha256sum | cut -c1-8)
+rm -rf /verif/out/mod-$TAG /verif/out/bin/*-$TAG.test /verif/out/bin/*-$TAG.race.test /verif/out/run-$TAG 2>/dev/null
 echo "mutant $(basename $P) on $PROP: exit $rc"
 exit $rc
